@@ -169,7 +169,7 @@ class C20(Check):
             for tl in itertools.permutations(canon, n):
                 for sx in shapes:
                     for sa in shapes:
-                        for kind in ('other-values', 'hash-equal-values', 'other-shape'):
+                        for kind in ('other-values', 'hash-equal-values', 'other-shape', 'same-object-changed-in-place'):
                             yield {'reuse': kind, 'terms': list(tl), 'x': list(sx), 'a': list(sa)}
 
     def large_cases(self, tier):
@@ -220,6 +220,7 @@ class C20(Check):
         if kind == 'other-values': seq = [(sx, sa, PRIMES_X, PRIMES_A), (sx, sa, PRIMES_X2, PRIMES_A2), (sx, sa, PRIMES_X, PRIMES_A)]
         elif kind == 'hash-equal-values': seq = [(sx, sa, H1x, H1a), (sx, sa, H2x, H2a), (sx, sa, H1x, H2a), (sx, sa, H1x, H1a)]
         else: seq = [(sx, sa, PRIMES_X, PRIMES_A), (nxt[sx], sa, PRIMES_X, PRIMES_A), (sx, nxt[sa], PRIMES_X, PRIMES_A), (sx, sa, PRIMES_X, PRIMES_A)]
+        if kind == 'same-object-changed-in-place': return self.run_inplace(terms, sx, sa, acc)
         enc = InteractionsEncoder(terms)
         for i, (s1, s2, px, pa) in enumerate(seq):
             kw = {'x': render(s1, px), 'a': render(s2, pa)}
@@ -233,6 +234,38 @@ class C20(Check):
                               f'call {i + 1} with x={kw["x"]!r} a={kw["a"]!r}: re-used encoder gives {str(got)[:120]}, a fresh encoder {str(fresh)[:120]}')
                 return
         acc.outcome(('reuse', kind))
+
+    def run_inplace(self, terms, sx, sa, acc):
+        """The caller keeps ONE x object and ONE a object and changes them in place between calls of one encoder (seed C20-M: a
+        memo keyed on object identity): replace a value, then grow, then shrink; every call equals a fresh encoder on a copy."""
+        x, a = render(sx, PRIMES_X), render(sa, PRIMES_A)
+        def steps(v, alt):
+            if isinstance(v, list):
+                nums = [i for i, e in enumerate(v) if not isinstance(e, str)]
+                if nums: yield lambda: v.__setitem__(nums[0], alt)
+                yield lambda: v.append(alt + 2)
+                yield lambda: v.pop(0)
+            elif isinstance(v, dict):
+                ks = list(v)
+                if ks: yield lambda: v.__setitem__(ks[0], alt)
+                yield lambda: v.__setitem__('zz', alt + 2)
+                if ks: yield lambda: v.pop(ks[0])
+        ops = [None] + list(steps(x, 29)) + list(steps(a, 31))
+        if len(ops) == 1: return
+        enc = InteractionsEncoder(terms)
+        copy = lambda v: list(v) if isinstance(v, list) else dict(v) if isinstance(v, dict) else v
+        for i, op in enumerate(ops):
+            if op: op()
+            try: fresh = ('ok', InteractionsEncoder(terms).encode(x=copy(x), a=copy(a)))
+            except Exception as e: fresh = ('exc', type(e).__name__)     # noqa
+            try: got = ('ok', enc.encode(x=x, a=a))
+            except Exception as e: got = ('exc', type(e).__name__)       # noqa
+            if i > 0: acc.mark_nontrivial()
+            if got != fresh:
+                acc.violation('encode|result depends on earlier calls of the same encoder|same-object-changed-in-place',
+                              f'call {i + 1} with the same objects changed in place, now x={x!r} a={a!r}: re-used encoder gives {str(got)[:120]}, a fresh encoder {str(fresh)[:120]}')
+                return
+        acc.outcome(('reuse', 'same-object-changed-in-place'))
 
     def encode(self, terms, sx, sa, px, pa):
         kw = {}
